@@ -386,7 +386,13 @@ def check(ctx):
         ok = bool(rets) and all(ccfg.dominated(r, lambda m_: m_ in ln) for r in rets)
         ctx.ob("R4", f"{SP}:cmds_to_specs", "every normal return passes the residual check", ok, key="cmds_to_specs|return-bypasses-residual", where=loc(c2s))
         # and the check comes after the wiring loop (so that resolved sentinels are gone)
-        wiring = [n for n in ccfg.nodes if n.kind == "for" and "redirects" in unparse(n.ast.iter)]
+        def makes_pipe(c, depth=2):
+            if "from_pipe" in unparse(c.func):
+                return True
+            nm_ = (call_name(c) or "").split(".")[-1]
+            return depth > 0 and sp.has(nm_) and isinstance(sp.quals[nm_], FuncTypes) and any(makes_pipe(c2_, depth - 1) for c2_ in calls_in(sp.quals[nm_], local=False))
+
+        wiring = [n for n in ccfg.nodes if n.kind == "for" and any(makes_pipe(c) for c in calls_in(n.ast, local=False))]
         ok = bool(wiring) and all(ccfg.dominated(x, lambda m_: m_ in wiring) for x in ln)
         ctx.ob("R4", f"{SP}:cmds_to_specs", "the residual check runs after the pipes were wired", ok, key="cmds_to_specs|residual-before-wiring", where=loc(c2s))
 
